@@ -53,8 +53,8 @@ def cprogram(prog):
 
 def model_verdicts(name, items):
     """items: list of (program, [(first, [(pkg, home, name)])]) -> per item, per first: (bad paths, bad name triples) according to Model/PyImport.v"""
-    os.makedirs(os.path.join(COQ, 'Cases'), exist_ok=True)
-    fn = os.path.join(COQ, 'Cases', f"{name}.v")
+    os.makedirs(CASES, exist_ok=True)
+    fn = os.path.join(CASES, f"{name}.v")
     with open(fn, 'w') as f:
         f.write("From EO Require Import Prelude.Py Model.Spec Model.PyImport.\nOpen Scope string_scope.\nOpen Scope list_scope.\n")
         for k, (prog, probes) in enumerate(items):
@@ -138,13 +138,24 @@ def run(tier):
     for t in trees:
         firsts = FIRSTS if not quick else (['eolib', 'eolib.packet', 'eolib.protocol.net.packet'] + rng.sample(FIRSTS[1:], 6 if t['name'].startswith('mini-eo') else 3))
         firsts = list(dict.fromkeys(firsts))
-        entries.append(dict(name=t['name'], tree=t['tree'], jobs=[dict(op='namespace', declared=declared(t['tree']), firsts=firsts, hashseed=rng.randrange(0, 1000))]))
+        entries.append(dict(name=t['name'], tree=t['tree'], reuse=(len(entries) % 2 == 1),       # every other package comes from a generator object that generated another tree before
+                            jobs=[dict(op='namespace', declared=declared(t['tree']), firsts=firsts, hashseed=rng.randrange(0, 1000))]))
     # a root type using a type of net/client (every reference of the official protocol points the other way): known finding
     up = empty_tree()
     up['net/client']['structs'] += [{'name': 'Inner', 'body': [F('a', 'char')]}]
     up['']['structs'] += [{'name': 'RootHolder', 'body': [F('i', 'Inner')]}]
     up['net/client']['packets'] += [{'family': 'Init', 'action': 'Init', 'body': [F('x', 'char')]}]
     entries.append(dict(name='descendant-reference', tree=up, jobs=[dict(op='namespace', declared=declared(up), firsts=['eolib', 'eolib.protocol.net.client', 'eolib.data'], hashseed=0)]))
+    # types named after the directory they live in (their module is <dir>/<dir>.py, their star-exported module attribute is named like the package)
+    own = empty_tree()
+    own['pub/server']['structs'] += [{'name': 'Server', 'body': [F('a', 'char')]}]
+    own['net/client']['structs'] += [{'name': 'Client', 'body': [F('s', 'Server')]}]
+    own['map']['structs'] += [{'name': 'Map', 'body': [F('m', 'char')]}]
+    own['pub']['structs'] += [{'name': 'Pub', 'body': [F('p', 'char')]}]
+    own['net']['structs'] += [{'name': 'Net', 'body': [F('n', 'Pub')]}]
+    own['net/client']['packets'] += [{'family': 'Talk', 'action': 'Request', 'body': [F('c', 'Client'), F('n', 'Net')]}]
+    own['net/server']['packets'] += [{'family': 'Talk', 'action': 'Request', 'body': [F('m', 'Map')]}]
+    entries.append(dict(name='own-directory-names', tree=own, jobs=[dict(op='namespace', declared=declared(own), firsts=FIRSTS if not quick else ['eolib', 'eolib.protocol.pub.server', 'eolib.protocol.net.client', 'eolib.protocol.pub', 'eolib.data'], hashseed=1)]))
     run_entries(C, runner, entries)
     nprobe = npaths = 0
     for e in entries:
